@@ -65,7 +65,7 @@ class Sim:
       gran: 'line' | 'instr';  scope: list of path prefixes that are pre-emption scope;
       fault_scope: list of path prefixes in which F2/F3 may be raised;
       strategy: {'kind': 'bernoulli', 'p':..} | {'kind': 'rr', 'q':..} | {'kind': 'pct', 'd':.., 'est':..}
-                | {'kind': 'none'} | {'kind': 'replay', 'switches': [[c, op_i, op_ev, nxt]..], 'finishes': [[c, nxt]..], 'first': c}
+                | {'kind': 'focus', 'p':.., 'fn': [file suffix, function name, first line]} | {'kind': 'none'} | {'kind': 'replay', 'switches': [[c, op_i, op_ev, nxt]..], 'finishes': [[c, nxt]..], 'first': c}
       sched_seed: int;  faults: [[client, op_i, op_ev, kind]..];  gcs_at: [[client, op_i, op_ev]..]
       full_digest: bool  — fold every single event (client, file, position) into the event-log digest
     """
@@ -92,6 +92,8 @@ class Sim:
         self.switch_sites = []
         self.stack_names = {}
         self.full_digest = bool(spec.get('full_digest'))
+        self.focus_key = None
+        self.focus_hits = 0
         st = spec['strategy']
         self.kind = st['kind']
         if self.kind == 'replay':
@@ -117,6 +119,9 @@ class Sim:
             self.logq = math.log(1.0 - self.p)
         elif self.kind == 'rr':
             self.q = st['q']
+        elif self.kind == 'focus':
+            self.p = st.get('p', 0.5)
+            self.focus_key = tuple(st['fn']) if st.get('fn') else None
         for c, oi, ev in spec.get('gcs_at', []):
             if 0 <= c < len(clients):
                 clients[c].gcs.setdefault(oi, []).append(ev)
@@ -134,10 +139,14 @@ class Sim:
     def _in_scope(self, code):
         fn = code.co_filename
         ok = fn.startswith(self.scope_prefixes) and code.co_name not in NO_SWITCH_NAMES
-        # bit0: switch scope, bit1: fault scope, rest: crc of the file name (hash-seed independent)
+        # bit0: switch scope, bit1: fault scope, bit2: the run's focus function, rest: crc of the file name
+        # (hash-seed independent)
         v = 0
         if ok:
-            v = 1 | (2 if fn.startswith(self.fault_prefixes) else 0) | ((zlib.crc32(fn.encode()) & 0xFFFF) << 2)
+            v = 1 | (2 if fn.startswith(self.fault_prefixes) else 0) | ((zlib.crc32(fn.encode()) & 0xFFFF) << 3)
+            fk = self.focus_key
+            if fk is not None and code.co_name == fk[1] and code.co_firstlineno == fk[2] and fn.endswith(fk[0]):
+                v |= 4
         self.scope_cache[code] = v
         return v
 
@@ -204,7 +213,7 @@ class Sim:
         if not sc:
             return DISABLE
         self.step = s = self.step + 1
-        if s >= self.stop:
+        if s >= self.stop or sc & 4:
             self._slow(code, pos, sc)
 
     def on_event_full(self, code, pos):
@@ -215,8 +224,8 @@ class Sim:
             return DISABLE
         self.step = s = self.step + 1
         cur = self.current
-        self.digest = ((self.digest * 1000003) ^ ((sc >> 2) * 131 + pos * 7 + (cur.cid if cur is not None else 99))) & 0xFFFFFFFFFFFF
-        if s >= self.stop:
+        self.digest = ((self.digest * 1000003) ^ ((sc >> 3) * 131 + pos * 7 + (cur.cid if cur is not None else 99))) & 0xFFFFFFFFFFFF
+        if s >= self.stop or sc & 4:
             self._slow(code, pos, sc)
 
     def _slow(self, code, pos, sc):
@@ -225,7 +234,7 @@ class Sim:
             return
         self._sync(c)
         ev = c.op_ev
-        self.digest = ((self.digest * 1000003) ^ ((sc >> 2) * 131 + pos * 7 + c.cid + ev * 31)) & 0xFFFFFFFFFFFF
+        self.digest = ((self.digest * 1000003) ^ ((sc >> 3) * 131 + pos * 7 + c.cid + ev * 31)) & 0xFFFFFFFFFFFF
         try:
             # --- faults
             kind = c.pending_fault
@@ -255,10 +264,10 @@ class Sim:
                 self.gc_fired.append([c.cid, c.op_i, ev])
                 gc.collect()
             # --- switch?
-            nxt = self._decide(c, ev)
+            nxt = self._decide(c, ev, sc)
             if nxt is not None and nxt is not c:
                 self.switches.append([c.cid, c.op_i, ev, nxt.cid])
-                self.switch_sites.append((c.cid, sc >> 2, pos))
+                self.switch_sites.append((c.cid, sc >> 3, pos))
                 self._overlap(c)
                 self._handoff(nxt)
                 c.sem.acquire()
@@ -296,9 +305,21 @@ class Sim:
     def _runnable_others(self, c):
         return [x for x in self.clients if x is not c and not x.done]
 
-    def _decide(self, c, ev):
+    def _decide(self, c, ev, sc=0):
         k = self.kind
         if k == 'none':
+            return None
+        if k == 'focus':
+            # dense interleaving inside one function: whoever executes a line of the focus function hands over
+            # (with probability p) to the next client, which runs freely until it reaches the function too
+            if sc & 4:
+                self.focus_hits += 1
+                if self.rng.random() < self.p:
+                    n = len(self.clients)
+                    for i in range(1, n):
+                        x = self.clients[(c.cid + i) % n]
+                        if not x.done:
+                            return x
             return None
         if k == 'replay':
             rl = c.rp.get(c.op_i)
